@@ -133,4 +133,19 @@ PROPS = {
         "assumptions": ["Go 1.23 standard library semantics of errors.Is/As/Unwrap"],
         "parts": [rapid("dropin", "TestProp", 24000, 480000)],
     },
+    "C20": {
+        "pkg": "c20",
+        "level": "exploration",
+        "level_text": "Generated search with shrinking over real RPCs: every generated tree is returned by the handler of an in-memory gRPC Echoer service behind "
+                      "UnaryServerInterceptor and received through UnaryClientInterceptor; the received error is compared (text, %+v, full accessor snapshot, Is "
+                      "against all nodes of the original and the sentinel pool) with a direct EncodeError/DecodeError transfer; a second client without interceptor "
+                      "observes the raw status code; status errors and nil must pass through unchanged.",
+        "level_note": "gRPC code OK attached to an error is outside the domain (a status with code OK is 'no error' by gRPC's definition); memlistener stands for the network.",
+        "technique": "property-based testing (rapid): differential oracle, gRPC interceptor path vs direct encode/decode",
+        "rule": "rapid-generated trees (boosted: WrapWithGrpcCode, grpc and gogo status leaves) sent through a real in-process gRPC call. Non-trivial = the handler's error "
+                "carries an attached code, or already is a status error, or has at least 3 spec nodes. Part nil-passthrough: handler returns nil (5 calls). "
+                "Distinct = hash of the case JSON.",
+        "assumptions": ["in-memory listener instead of TCP", "grpc-go v1.56.3 as pinned by the repository"],
+        "parts": [rapid("interceptors", "TestProp", 8000, 120000), plain("nil-passthrough", "TestNil")],
+    },
 }
